@@ -1,6 +1,10 @@
 mod boardsim;
 mod checks;
 mod common;
+mod enginesim;
+mod linesim;
+mod sched;
+mod uciref;
 mod pool;
 mod refchess;
 mod rng;
